@@ -136,7 +136,7 @@ def valid(ctx, t):
     if long_traj:
         # long trajectories, around the sizes where fast paths tend to switch
         nfr = t.choice((4096, 32768, 33000, 65537))
-        fa = t.irange(2, 3)
+        fa = t.irange(1, 3)
         ctx.hit('long_trajectory')
     fb = fa if t.flag(1, 2) else t.irange(1, 5 if not long_traj else 3)
     na = t.irange(2, 5)
